@@ -46,6 +46,7 @@ uint64_t model_state_digest(const struct lp_state *s)
 	h = mix64(h, s->libsum);
 	h = mix64(h, ((uint64_t)s->handled << 32) | s->budget);
 	h = mix64(h, ((uint64_t)s->limit << 32) | s->nbuf);
+	h = mix64(h, s->skip_chain);
 	h = mix64(h, s->init_draws[0]);
 	h = mix64(h, s->init_draws[1]);
 	for(uint32_t i = 0; i < s->nbuf; i++) {
@@ -508,12 +509,27 @@ void model_dispatch(lp_id_t me, simtime_t now, unsigned type, const void *conten
 	if(P.m_rng)
 		rng_ops(s, mix64(r, 2));
 
+	if(s->skip_chain) {
+		/* an event that schedules nothing: its history entry has no sent-message entries in front of it */
+		s->skip_chain = 0;
+		eng_on_dispatch(me, now, type, content, size, st, false);
+		return;
+	}
 	/* the self chain keeps every LP going until its budget is reached */
 	unsigned nt;
 	double inc = pick_inc(s, mix64(r, 3), type, &nt);
 	unsigned sz = pick_payload(pl, mix64(r, 4));
 	inc = valid_inc(inc, type, content, size, nt, pl, sz);
 	ScheduleNewEvent(me, now + inc, nt, pl, sz);
+	if(P.m_nosend && (mix64(r, 21) & 3) == 0) {
+		/* send the next link of the chain in advance; the event that would have sent it sends nothing */
+		uint64_t r2 = mix64(r, 22);
+		unsigned nt2;
+		double inc2 = pick_inc(s, r2, 0, &nt2);
+		unsigned sz2 = pick_payload(pl, mix64(r2, 4));
+		ScheduleNewEvent(me, now + inc + (inc2 > 0 ? inc2 : 0.5), nt2, pl, sz2);
+		s->skip_chain = 1;
+	}
 	unsigned extra = P.m_fanout > 0 ? (unsigned)(mix64(r, 5) % (uint64_t)(P.m_fanout + 1)) : 0;
 	for(unsigned k = 0; k < extra; k++) {
 		uint64_t rr = mix64(r, 6 + k);
